@@ -106,7 +106,7 @@ func (rm *RpcMultiplexer) CallUnaryMethod(
 			return nil, fmt.Errorf("respChan closed")
 		}
 		for _, sh := range statsHandlers {
-			headers, _ := internal.ToMetadata(resp.GetHeader().Headers)
+			headers, _ := internal.ToMetadata(resp.GetHeader().GetHeaders())
 
 			sh.HandleRPC(ctx, &stats.InHeader{
 				Client:     true,
